@@ -19,6 +19,11 @@ THEOREMS = [
     "C01_error_position_partial", "C01_error_position_refuted", "C01_render_total",
     "C01_type_sound", "C01_type_complete", "C01_value_sound", "C01_value_complete",
     "C01_value_production_sound", "C01_value_production_complete",
+    "C01_exec_sound", "C01_exec_complete", "C01_exec_tokens_sound", "C01_exec_tokens_complete",
+    "C01_document_sound", "C01_document_sound_la", "C01_document_complete", "C01_document_tokens_complete",
+    "C01_accepts_document",
+    "C01_lex_sound", "C01_lex_complete_slack", "C01_lex_complete",
+    "C01_accepts_exec", "C01_accepts_exec_strict", "C01_accepts_value", "C01_accepts_type",
 ]
 AXIOMS_OK = []
 RUN_MODULE = "Run.C01run Lang.Parser Lang.Loc"
